@@ -74,6 +74,7 @@ def reparse(kind, text, flags):
 
 
 CONTEXT = {"Field", "FragmentSpread", "InlineFragment", "SelectionSet", "Directive", "Argument"}
+_WRAPPED, _WRAPPED_SEEN = [], set()
 
 
 def context_reparse(kind, piece, flags):
@@ -282,7 +283,10 @@ def check_tree(ctx, text, entry, flags, root, origin):
                          "the text of a node's span, wrapped in its minimal context, parses to a document that does not "
                          "contain an equal node (modulo the offset)", det(n, piece=piece, wrapped=cg[1]))
                 ok = False
-            elif cg[4] is not True:
+            elif cg[4] is True and len(_WRAPPED) < 600 and (kind, cg[1]) not in _WRAPPED_SEEN:
+                _WRAPPED_SEEN.add((kind, cg[1]))
+                _WRAPPED.append((cg[1], flags, kind))       # also sent to the Lean lexer + parser at the end of the run
+            if cg[0] == "ok" and shift(cg[2], a - cg[3]) == want and cg[4] is not True:
                 ctx.fail("context-reparse-shape:%s:%s" % (kind, cg[4]),
                          "the document parsed from the wrapped text is not the minimal context around the node",
                          det(n, piece=piece, wrapped=cg[1]))
@@ -374,6 +378,31 @@ def run(ctx):
                 ctx.fail("corr:spec-check-failed:%s" % entry,
                          "compiled model output violates WF / yield / span specification", cp.detail(c, model=a.get("spec")),
                          kind="correspondence")
+    corr_wrapped(ctx)
+
+
+def corr_wrapped(ctx):
+    """the wrapped texts of the context oracle through the Lean lexer + parser (driver op parse_text): the instances of
+    span_reparse_selection / _directive / _argument / _description computed by the compiled model = what parse() returns"""
+    if not (_WRAPPED and cp.model_available(ctx)):
+        return
+    from corr import C01_lex as L
+    reqs = [dict(op="parse_text", entry="document", text=L.cps(w), **cp.flags_json(fl)) for w, fl, _ in _WRAPPED]
+    for (w, fl, kind), a in zip(_WRAPPED, ctx.driver.ask(reqs)):
+        ctx.count()
+        ctx.stat("context-model=%s" % kind)
+        r = cp.real_parse(w, "document", fl)
+        if r[0] != "ok":
+            continue
+        if "ok" not in a:
+            ctx.fail("corr:context-reparse:model-rejects:%s" % kind, "the Lean lexer+parser rejects a wrapped text parse() accepts",
+                     {"part": PART, "text": w, "entry": "document", "flags": fl, "model": str(a)[:300]}, kind="correspondence")
+        elif a["ok"] != cp.canon(r[1].to_dict()):
+            ctx.fail("corr:context-reparse:ast-differs:%s:%s" % (kind, cp.first_diff(cp.canon(r[1].to_dict()), a["ok"])),
+                     "the Lean lexer+parser and parse() return different trees for a wrapped text",
+                     {"part": PART, "text": w, "entry": "document", "flags": fl}, kind="correspondence")
+    del _WRAPPED[:]
+    _WRAPPED_SEEN.clear()
 
 
 def replay(ctx, data):
